@@ -943,6 +943,21 @@ struct Gen
   }
 };
 
+// The same generator as an EMPTY class (a captureless lambda, a functor without members): its state lives outside the object.
+// The contract is the same -- one call per element, in order; anything the library derives from std::is_empty<Generator> shows.
+static int *g_gen_calls = 0;
+static int  g_gen_base = 0;
+struct EmptyGen
+{
+  Elem operator() ()
+  {
+    g_inj.tick (FK_GEN);
+    log_ev (8, 0, *g_gen_calls, 0, 0, 0);
+    int j = (*g_gen_calls)++;
+    return Elem (g_gen_base + j);
+  }
+};
+
 // ------------------------------------------------------------------ stimulus representation
 struct Op
 {
@@ -1616,9 +1631,20 @@ static void op_construct (void *mem, const Op &op, OpResult &res)
       int base = g_next_val;
       for (long i = 0; i < op.a[1] && i < 64; ++i) res.vals.push_back (g_next_val++);
       Gen g = { &calls, base };
+      EmptyGen eg;
+      g_gen_calls = &calls; g_gen_base = base;
+      const bool empty_class = (op.a[1] % 2) == 0;     // even counts: the generator is an empty class (same contract)
       ARM ();
-      if (aid) ::new (mem) V (static_cast<sz_t> (op.a[1]), g, make_alloc (aid));
-      else     ::new (mem) V (static_cast<sz_t> (op.a[1]), g);
+      if (empty_class)
+        {
+          if (aid) ::new (mem) V (static_cast<sz_t> (op.a[1]), eg, make_alloc (aid));
+          else     ::new (mem) V (static_cast<sz_t> (op.a[1]), eg);
+        }
+      else
+        {
+          if (aid) ::new (mem) V (static_cast<sz_t> (op.a[1]), g, make_alloc (aid));
+          else     ::new (mem) V (static_cast<sz_t> (op.a[1]), g);
+        }
       res.ret2 = calls;
     }
 #endif
